@@ -56,10 +56,7 @@ Proof. intros H. unfold stable. rewrite edit_the_blk_same by auto. auto. Qed.
 Lemma aux_add_return_edges_for_patch_calls s0 s pc : aux s0 s -> aux s0 (fst (add_return_edges_for_patch_calls s pc)).
 Proof.
   intros H. unfold add_return_edges_for_patch_calls. apply aux_fold_pair; auto.
-  intros [a c] ce Ha; cbn [fst] in *.
-  repeat match goal with |- aux _ (fst (if ?c then _ else _)) => destruct c; cbn [fst]; auto end.
-  destruct (aget _ (fbb a)); cbn [fst]; auto. destruct (aget _ _); cbn [fst]; auto.
-  apply aux_add_return_edges_to_callee; auto.
+  intros [a c] fr Ha; cbn [fst] in *. apply aux_add_return_edges_to_callee; auto.
 Qed.
 
 Lemma insert_split_spec s b off repl e ft s' :
